@@ -277,7 +277,7 @@ WaitConsume ==            \* the consumer thread: take everything that is in the
 
 WaitDead ==               \* fail the futures of dead processes; _start_processes; split_done_futures
   /\ pc = "wait_dead"
-  /\ lg' = [lg EXCEPT !.del = @ \o lg.q, !.q = <<>>]                \* second drain, after executor.wait
+  /\ UNCHANGED lg
   /\ LET deadNow == {t \in deadS : fut[t] = "pending"}
          f1 == [t \in Tasks |-> IF t \in deadNow THEN "died" ELSE fut[t]]
          run1 == running \ deadNow
@@ -294,10 +294,19 @@ WaitDead ==               \* fail the futures of dead processes; _start_processe
        /\ loadCount' = [x \in Tasks |-> IF x \in S /\ uc[x] THEN loadCount[x] + 1 ELSE loadCount[x]]
        /\ batch' = SelectSeq(ftt, LAMBDA t : f1[t] # "pending")
   /\ deadS' = {}
-  /\ pc' = "iter"
+  /\ pc' = IF Logs THEN "wait_drain2" ELSE "iter"       \* (the second drain only matters when log records are modelled)
   /\ UNCHANGED <<ci, cfg, mode, pend, ddeps, pdeps, pdependents, active, ready, cur, removable, exitk, rmap, ftt,
                  subq, uc, rq, wres, cached, store, subCount, viaCache, fin, done, died, captured, dig,
                  intCount, outKeys, outVals, lg, hist>>
+  /\ UNCHANGED gvars
+
+WaitDrain2 ==             \* back in ProcessRunner.wait: handle the log records of the tasks that have just completed
+  /\ pc = "wait_drain2"
+  /\ lg' = [lg EXCEPT !.del = @ \o lg.q, !.q = <<>>]                \* second drain, after executor.wait
+  /\ pc' = "iter"
+  /\ UNCHANGED <<ci, cfg, mode, pend, ddeps, pdeps, pdependents, active, ready, cur, removable, exitk, rmap, ftt,
+                 subq, uc, epend, running, fut, rq, deadS, batch, wst, wres, view, cached, store, subCount, viaCache,
+                 inrun, runCount, loadCount, fin, done, died, captured, dig, reads, intCount, outKeys, outVals, hist>>
   /\ UNCHANGED gvars
 
 Iter ==                   \* for future in done: prune it, skip cancelled, publish the result, yield
@@ -401,7 +410,7 @@ RemoveResults ==          \* runner.remove_results(tasks_with_removable_results)
 
 (* ---- interrupts ---- *)
 
-InTry == {"loop", "submit", "wait_sample", "wait_consume", "wait_dead", "iter", "body", "remove", "ser_run",
+InTry == {"loop", "submit", "wait_sample", "wait_consume", "wait_dead", "wait_drain2", "iter", "body", "remove", "ser_run",
           "int1_cancel", "drain_check", "int2_stop"}
 
 Interrupt ==              \* KeyboardInterrupt delivered to the calling thread at this location
@@ -476,9 +485,10 @@ Close ==                  \* finally: runner.close(); then return / re-raise; La
 -----------------------------------------------------------------------------
 (* ---- workers (process backends).  Partial-order restriction: a worker moves *)
 (* only where the coordinator can observe the difference: before the liveness  *)
-(* sample and between the sample and the drain of the result queue.            *)
+(* sample, between the sample and the drain of the result queue and (when log  *)
+(* records are modelled) before the second drain of the log queue.             *)
 
-ObsPoint == pc \in {"wait_sample", "wait_consume"} /\ ~Serial
+ObsPoint == pc \in ({"wait_sample", "wait_consume"} \cup (IF Logs THEN {"wait_drain2"} ELSE {})) /\ ~Serial
 
 WFinish(t) ==             \* run() or the load ends, the result is saved, the outcome is put on the queue
   /\ t \in Tasks /\ ObsPoint /\ wst[t] = "run" /\ t \in running
@@ -521,7 +531,7 @@ WDie(t) ==                \* the process is killed before it could report anythi
   /\ UNCHANGED gvars
 
 Worker == \E t \in Tasks : WFinish(t) \/ WExit(t) \/ WDie(t)
-Coordinator == Plan \/ LoopTop \/ Submit \/ WaitSample \/ WaitConsume \/ WaitDead \/ Iter \/ SerPop \/ SerRun
+Coordinator == Plan \/ LoopTop \/ Submit \/ WaitSample \/ WaitConsume \/ WaitDead \/ WaitDrain2 \/ Iter \/ SerPop \/ SerRun
                \/ Body \/ RemoveResults \/ Cancel \/ DrainCheck \/ Stop \/ Close
 
 Next == Coordinator \/ Worker \/ Interrupt
